@@ -242,6 +242,9 @@ const NACK_RESEND_COOLDOWN: Duration = Duration::from_millis(25);
 /// Cap receiver-generated NACK lists so a large gap cannot allocate tens of
 /// thousands of sequence numbers in one RTCP feedback.
 const MAX_RECEIVER_NACK_GAP: usize = 128;
+/// Upper bound on simulcast layers accepted from one remote m-section. Every layer costs a
+/// receive track with its sample ring, so the count must not be dictated by the remote SDP.
+const MAX_SIMULCAST_LAYERS: usize = 16;
 
 pub trait NackStats: Send + Sync {
     fn get_nack_count(&self) -> u64;
@@ -1816,8 +1819,10 @@ impl PeerConnection {
                         // Handle Simulcast
                         if let Some(sim) = &simulcast {
                             // For Offer, we look at 'send' direction (remote sends to us)
-                            for rid_id in &sim.send {
-                                let _ = rx.add_simulcast_track(rid_id.clone());
+                            for rid_id in sim.send.iter().take(MAX_SIMULCAST_LAYERS) {
+                                if rx.simulcast_track(rid_id).is_none() {
+                                    let _ = rx.add_simulcast_track(rid_id.clone());
+                                }
                             }
                         }
                     }
@@ -1897,8 +1902,10 @@ impl PeerConnection {
 
                     // Handle Simulcast for new transceiver
                     if let Some(sim) = &simulcast {
-                        for rid_id in &sim.send {
-                            let _ = receiver.add_simulcast_track(rid_id.clone());
+                        for rid_id in sim.send.iter().take(MAX_SIMULCAST_LAYERS) {
+                            if receiver.simulcast_track(rid_id).is_none() {
+                                let _ = receiver.add_simulcast_track(rid_id.clone());
+                            }
                         }
                     }
 
